@@ -492,6 +492,10 @@ pub fn reference(s: &[u8]) -> RefOut {
             if name.is_empty() || !name.iter().all(|b| is_tchar(*b)) {
                 return RefOut::Run(msgs, End::Reject(400), Some("syntax-header-name"));
             }
+            if name.len() > 65535 {
+                // limit of the `http` crate's HeaderName (documented implementation limit)
+                return RefOut::Run(msgs, End::Reject(400), Some("header-name-too-long"));
+            }
             let val = trim_ows(&l[c + 1..]);
             if !val.iter().all(|b| *b == b'\t' || (*b >= 0x20 && *b != 0x7f)) {
                 return RefOut::Run(msgs, End::Reject(400), Some("syntax-header-value"));
